@@ -1,0 +1,27 @@
+//go:build verif
+
+package limitparallelrequests
+
+import "github.com/plgd-dev/go-coap/v3/message"
+
+// Read-only accessors for the verification harness (build tag verif only).
+
+// VerifHash exposes the endpoint key of an option list.
+func VerifHash(opts message.Options) uint64 {
+	return hash(opts)
+}
+
+// VerifEntries returns the number of endpoint entries currently held.
+func (c *LimitParallelRequests) VerifEntries() int {
+	return c.endpointQueues.Length()
+}
+
+// VerifEndpoint returns the in-flight counter and the number of queued waiters of one endpoint entry.
+func (c *LimitParallelRequests) VerifEndpoint(key uint64) (counter int64, waiters int, ok bool) {
+	_, ok = c.endpointQueues.LoadWithFunc(key, func(q *endpointQueue) *endpointQueue {
+		counter = q.processedCounter
+		waiters = len(q.orderedRequest)
+		return q
+	})
+	return counter, waiters, ok
+}
